@@ -331,7 +331,9 @@ Definition ew_value (elem mode smode rmode : Z) (gs : bool) (opa_s opa_sh opb_s 
   else if mode =? 1 then out (pre_a + pre_b)
   else if mode =? 2 then out (pre_a - pre_b)
   else if mode =? 3 then out (Z.min a b)
-  else out (Z.max a b).
+  else if mode =? 4 then out (Z.max a b)
+  else Z.abs a.        (* ABS (6), unary: |operand A|, no output scaling (reading: Vela programs OFM_SCALE with the bare output
+                          scale for it, which cannot be a factor of the result) *)
 
 Definition exec_elementwise (x : xcfg) (m : mem) (mode : Z) (r : regs) : option mem :=
   let iv := ifm_view cmd0_NPU_OP_ELEMENTWISE r in
@@ -341,7 +343,7 @@ Definition exec_elementwise (x : xcfg) (m : mem) (mode : Z) (r : regs) : option 
   let rev := (bc / 64) mod 2 =? 1 in
   let scalar := (bc / 128) mod 2 =? 1 in
   if negb (act_ok r (fv_elem iv) (fv_elem ov)) || negb (r0 r cmd0_NPU_SET_IFM_UPSCALE =? 0)
-     || negb (mode <=? 4) then None else
+     || negb ((mode <=? 4) || (mode =? 6)) then None else
   let b1 := get_bank m (fv_region iv) in
   let b2 := get_bank m (fv_region v2) in
   let sg1 := ifm_signed r in
